@@ -39,6 +39,7 @@ enum EvT : int
   EV_TERMINAL,       // a=op kind b=arg
   EV_ARG_EVAL,       // a=id   (argument of a macro statement was evaluated)
   EV_GET_SINK,       // a=sink b=found c=same object as the one in use
+  EV_CSV,            // a=name idx b=rows  s=expected file content s2=actual file content after the writer's scope ended
   EV_NOTE            // free
 };
 
